@@ -192,16 +192,20 @@ Qed.
 (* Every executor answers with a well-formed reply and either leaves the database alone, or
    stores a non-empty hash at its key, or stores back / removes the hash it found at its key.
    Errors always fall in the first case. *)
-Inductive hres (d : db) (k : bytes) : reply -> db -> Prop :=
-| hres_same r : reply_wf r = true -> hres d k r d
+Inductive hres (d : db) (k : bytes) (fs : list bytes) : reply -> db -> Prop :=
+| hres_same r : reply_wf r = true -> hres d k fs r d
 | hres_set r h h' :
     hash_or_empty d k = Some h -> is_err r = false -> reply_wf r = true ->
     h' <> [] -> (NoDup (akeys h) -> NoDup (akeys h')) ->
-    hres d k r (db_set d k (VHash h'))
+    (forall f, ~ In f fs -> alookup f h' = alookup f h) ->
+    hres d k fs r (db_set d k (VHash h'))
 | hres_put r h h' :
     get_hash d k = HFound h -> is_err r = false -> reply_wf r = true ->
     (NoDup (akeys h) -> NoDup (akeys h')) ->
-    hres d k r (put_hash d k h').
+    (forall f, ~ In f fs -> alookup f h' = alookup f h) ->
+    hres d k fs r (put_hash d k h').
+
+Definition fields_of (args : list bytes) : list bytes := skipn 2 args.
 
 Lemma hash_or_empty_nodup d k h : hashes_ok d -> hash_or_empty d k = Some h -> NoDup (akeys h).
 Proof.
@@ -220,17 +224,17 @@ Qed.
 Lemma put_hash_wf d k h : db_wf d -> db_wf (put_hash d k h).
 Proof. intros W. destruct h; cbn; [apply db_wf_del|apply db_wf_set]; exact W. Qed.
 
-Lemma hres_wf d k r d' : hres d k r d' -> db_wf d -> db_wf d'.
+Lemma hres_wf d k fs r d' : hres d k fs r d' -> db_wf d -> db_wf d'.
 Proof.
   intros H W. destruct H; [exact W|apply db_wf_set; exact W|apply put_hash_wf; exact W].
 Qed.
 
-Lemma hres_reply_wf d k r d' : hres d k r d' -> reply_wf r = true.
+Lemma hres_reply_wf d k fs r d' : hres d k fs r d' -> reply_wf r = true.
 Proof. intros H. destruct H; assumption. Qed.
 
-Lemma hres_ok d k r d' : hres d k r d' -> hashes_ok d -> hashes_ok d'.
+Lemma hres_ok d k fs r d' : hres d k fs r d' -> hashes_ok d -> hashes_ok d'.
 Proof.
-  intros H OK. destruct H as [r Hr|r h h' Hh Hne Hr Hn Hd|r h h' Hh Hne Hr Hd]; [exact OK| |].
+  intros H OK. destruct H as [r Hr|r h h' Hh Hne Hr Hn Hd Hf|r h h' Hh Hne Hr Hd Hf]; [exact OK| |].
   - apply hashes_ok_set; [exact OK|]. split; [exact Hn|]. apply Hd.
     eapply hash_or_empty_nodup; eassumption.
   - destruct h' as [|p h2] eqn:E; cbn; [apply hashes_ok_del; exact OK|].
@@ -239,20 +243,20 @@ Proof.
 Qed.
 
 (* an error reply changes nothing (in particular WRONGTYPE) *)
-Lemma hres_err_same d k r d' : hres d k r d' -> is_err r = true -> d' = d.
+Lemma hres_err_same d k fs r d' : hres d k fs r d' -> is_err r = true -> d' = d.
 Proof. intros H E. destruct H; [reflexivity|congruence|congruence]. Qed.
 
 (* frame: only the command's own key can change, value and deadline *)
-Lemma hres_frame d k r d' k0 : hres d k r d' -> k0 <> k -> raw_view d' k0 = raw_view d k0.
+Lemma hres_frame d k fs r d' k0 : hres d k fs r d' -> k0 <> k -> raw_view d' k0 = raw_view d k0.
 Proof.
-  intros H N. destruct H as [| |r h h' Hh Hne Hr Hd]; [reflexivity|apply raw_view_set_other; exact N|].
+  intros H N. destruct H as [| |r h h' Hh Hne Hr Hd Hf]; [reflexivity|apply raw_view_set_other; exact N|].
   destruct h'; cbn; [apply raw_view_del_other|apply raw_view_set_other]; exact N.
 Qed.
 
 (* the deadline of the command's key survives unless the hash ceased to exist *)
-Lemma hres_ttl d k r d' : hres d k r d' -> db_get d' k <> None -> db_ttl d' k = db_ttl d k.
+Lemma hres_ttl d k fs r d' : hres d k fs r d' -> db_get d' k <> None -> db_ttl d' k = db_ttl d k.
 Proof.
-  intros H G. destruct H as [| |r h h' Hh Hne Hr Hd]; [reflexivity|reflexivity|].
+  intros H G. destruct H as [| |r h h' Hh Hne Hr Hd Hf]; [reflexivity|reflexivity|].
   destruct h'; unfold put_hash in *; [|reflexivity]. rewrite db_get_del_same in G. congruence.
 Qed.
 
@@ -268,29 +272,56 @@ Proof. unfold flat_pairs. induction h; cbn; [reflexivity|exact IHh]. Qed.
 
 Ltac same := apply hres_same; first [reflexivity | apply wf_bulk_opt | idtac].
 
-Lemma exec_hset_hres d args : hres d (key_of args) (fst (exec_hset d args)) (snd (exec_hset d args)).
+Lemma pairs_of_fields : forall fvs ps f, pairs_of fvs = Some ps -> In f (map fst ps) -> In f fvs.
 Proof.
-  unfold exec_hset, key_of.
-  destruct args as [|c [|k [|a1 [|a2 rest]]]]; cbn [nth fst snd]; try (same; fail).
+  fix IH 1. intros [|a [|b r]] ps f; cbn [pairs_of]; intros P Hin.
+  - inversion P; subst. destruct Hin.
+  - discriminate.
+  - destruct (pairs_of r) as [ps'|] eqn:E; [|discriminate]. inversion P; subst. cbn in Hin.
+    destruct Hin as [<-|Hin]; [left; reflexivity|]. right; right. eapply IH; eassumption.
+Qed.
+
+Lemma alookup_rev_notin {A} (f : bytes) (ps : list (bytes * A)) : ~ In f (map fst ps) -> alookup f (rev ps) = None.
+Proof.
+  intros H. apply alookup_None_notin. unfold akeys. rewrite map_rev. intros Hin. apply H.
+  apply in_rev. exact Hin.
+Qed.
+
+Lemma existsb_notin f fs : ~ In f fs -> existsb (bytes_eqb f) fs = false.
+Proof.
+  intros H. destruct (existsb (bytes_eqb f) fs) eqn:E; [|reflexivity].
+  apply existsb_exists in E as [x [Hx Ex]]. apply bytes_eqb_eq in Ex. subst. contradiction.
+Qed.
+
+Lemma aset_other_field {A} (f : bytes) (v : A) h fs : In f fs -> forall f0, ~ In f0 fs -> alookup f0 (aset f v h) = alookup f0 h.
+Proof. intros Hin f0 N. apply alookup_aset_other. intros ->. contradiction. Qed.
+
+Lemma exec_hset_hres d args : hres d (key_of args) (fields_of args) (fst (exec_hset d args)) (snd (exec_hset d args)).
+Proof.
+  unfold exec_hset, key_of, fields_of.
+  destruct args as [|c [|k [|a1 [|a2 rest]]]]; cbn [nth fst snd skipn]; try (same; fail).
   destruct (pairs_of (a1 :: a2 :: rest)) as [ps|] eqn:P; [|same].
   destruct (hash_or_empty d k) as [h|] eqn:H; [|same].
   destruct (hset_all h ps 0) as [h' n] eqn:S. cbn [fst snd].
   assert (Hps : ps <> []).
   { cbn in P. destruct (pairs_of rest); [|discriminate]. inversion P. discriminate. }
-  apply (hres_set d k (RInt n) h h' H); try reflexivity.
+  apply (hres_set d k _ (RInt n) h h' H); try reflexivity.
   - change h' with (fst (h', n)). rewrite <- S. apply hset_all_nonempty. exact Hps.
   - intros ND. change h' with (fst (h', n)). rewrite <- S. apply hset_all_nodup. exact ND.
+  - intros f Hf. change h' with (fst (h', n)). rewrite <- S. rewrite hset_all_lookup.
+    rewrite alookup_rev_notin; [reflexivity|]. intros Hin. apply Hf. eapply pairs_of_fields; eassumption.
 Qed.
 
-Lemma exec_hsetnx_hres d args : hres d (key_of args) (fst (exec_hsetnx d args)) (snd (exec_hsetnx d args)).
+Lemma exec_hsetnx_hres d args : hres d (key_of args) (fields_of args) (fst (exec_hsetnx d args)) (snd (exec_hsetnx d args)).
 Proof.
-  unfold exec_hsetnx, key_of.
-  destruct args as [|c [|k [|f [|v [|x rest]]]]]; cbn [nth fst snd]; try (same; fail).
+  unfold exec_hsetnx, key_of, fields_of.
+  destruct args as [|c [|k [|f [|v [|x rest]]]]]; cbn [nth fst snd skipn]; try (same; fail).
   destruct (hash_or_empty d k) as [h|] eqn:H; [|same].
   destruct (amem f h); [same|]. cbn [fst snd].
-  apply (hres_set d k (RInt 1) h _ H); try reflexivity.
+  apply (hres_set d k _ (RInt 1) h _ H); try reflexivity.
   - apply aset_nonempty.
   - apply NoDup_aset.
+  - apply aset_other_field. left; reflexivity.
 Qed.
 
 Ltac read_only :=
@@ -298,107 +329,109 @@ Ltac read_only :=
   | |- context [hash_or_empty ?d ?k] => destruct (hash_or_empty d k) as [?h|] eqn:?H; cbn [fst snd]; same
   end.
 
-Lemma exec_hget_hres d args : hres d (key_of args) (fst (exec_hget d args)) (snd (exec_hget d args)).
+Lemma exec_hget_hres d args : hres d (key_of args) (fields_of args) (fst (exec_hget d args)) (snd (exec_hget d args)).
 Proof.
-  unfold exec_hget, key_of.
-  destruct args as [|c [|k [|f [|x rest]]]]; cbn [nth fst snd]; try (same; fail). read_only.
+  unfold exec_hget, key_of, fields_of.
+  destruct args as [|c [|k [|f [|x rest]]]]; cbn [nth fst snd skipn]; try (same; fail). read_only.
 Qed.
 
-Lemma exec_hmget_hres d args : hres d (key_of args) (fst (exec_hmget d args)) (snd (exec_hmget d args)).
+Lemma exec_hmget_hres d args : hres d (key_of args) (fields_of args) (fst (exec_hmget d args)) (snd (exec_hmget d args)).
 Proof.
-  unfold exec_hmget, key_of.
-  destruct args as [|c [|k [|f rest]]]; cbn [nth fst snd]; try (same; fail).
+  unfold exec_hmget, key_of, fields_of.
+  destruct args as [|c [|k [|f rest]]]; cbn [nth fst snd skipn]; try (same; fail).
   destruct (hash_or_empty d k) as [h|] eqn:H; cbn [fst snd]; [|same].
   apply hres_same. cbn [reply_wf]. generalize (f :: rest). intros l.
   induction l; cbn; [reflexivity|]. rewrite wf_bulk_opt. exact IHl.
 Qed.
 
-Lemma exec_hgetall_hres d args : hres d (key_of args) (fst (exec_hgetall d args)) (snd (exec_hgetall d args)).
+Lemma exec_hgetall_hres d args : hres d (key_of args) (fields_of args) (fst (exec_hgetall d args)) (snd (exec_hgetall d args)).
 Proof.
-  unfold exec_hgetall, key_of.
-  destruct args as [|c [|k [|x rest]]]; cbn [nth fst snd]; try (same; fail).
+  unfold exec_hgetall, key_of, fields_of.
+  destruct args as [|c [|k [|x rest]]]; cbn [nth fst snd skipn]; try (same; fail).
   destruct (hash_or_empty d k) as [h|] eqn:H; cbn [fst snd]; [|same].
   apply hres_same. apply wf_flat_pairs.
 Qed.
 
-Lemma exec_hkeys_hres d args : hres d (key_of args) (fst (exec_hkeys d args)) (snd (exec_hkeys d args)).
+Lemma exec_hkeys_hres d args : hres d (key_of args) (fields_of args) (fst (exec_hkeys d args)) (snd (exec_hkeys d args)).
 Proof.
-  unfold exec_hkeys, key_of.
-  destruct args as [|c [|k [|x rest]]]; cbn [nth fst snd]; try (same; fail).
+  unfold exec_hkeys, key_of, fields_of.
+  destruct args as [|c [|k [|x rest]]]; cbn [nth fst snd skipn]; try (same; fail).
   destruct (hash_or_empty d k) as [h|] eqn:H; cbn [fst snd]; [|same].
   apply hres_same. apply (wf_map_bulk fst).
 Qed.
 
-Lemma exec_hvals_hres d args : hres d (key_of args) (fst (exec_hvals d args)) (snd (exec_hvals d args)).
+Lemma exec_hvals_hres d args : hres d (key_of args) (fields_of args) (fst (exec_hvals d args)) (snd (exec_hvals d args)).
 Proof.
-  unfold exec_hvals, key_of.
-  destruct args as [|c [|k [|x rest]]]; cbn [nth fst snd]; try (same; fail).
+  unfold exec_hvals, key_of, fields_of.
+  destruct args as [|c [|k [|x rest]]]; cbn [nth fst snd skipn]; try (same; fail).
   destruct (hash_or_empty d k) as [h|] eqn:H; cbn [fst snd]; [|same].
   apply hres_same. apply (wf_map_bulk snd).
 Qed.
 
-Lemma exec_hlen_hres d args : hres d (key_of args) (fst (exec_hlen d args)) (snd (exec_hlen d args)).
+Lemma exec_hlen_hres d args : hres d (key_of args) (fields_of args) (fst (exec_hlen d args)) (snd (exec_hlen d args)).
 Proof.
-  unfold exec_hlen, key_of.
-  destruct args as [|c [|k [|x rest]]]; cbn [nth fst snd]; try (same; fail). read_only.
+  unfold exec_hlen, key_of, fields_of.
+  destruct args as [|c [|k [|x rest]]]; cbn [nth fst snd skipn]; try (same; fail). read_only.
 Qed.
 
-Lemma exec_hexists_hres d args : hres d (key_of args) (fst (exec_hexists d args)) (snd (exec_hexists d args)).
+Lemma exec_hexists_hres d args : hres d (key_of args) (fields_of args) (fst (exec_hexists d args)) (snd (exec_hexists d args)).
 Proof.
-  unfold exec_hexists, key_of.
-  destruct args as [|c [|k [|f [|x rest]]]]; cbn [nth fst snd]; try (same; fail). read_only.
+  unfold exec_hexists, key_of, fields_of.
+  destruct args as [|c [|k [|f [|x rest]]]]; cbn [nth fst snd skipn]; try (same; fail). read_only.
 Qed.
 
-Lemma exec_hstrlen_hres d args : hres d (key_of args) (fst (exec_hstrlen d args)) (snd (exec_hstrlen d args)).
+Lemma exec_hstrlen_hres d args : hres d (key_of args) (fields_of args) (fst (exec_hstrlen d args)) (snd (exec_hstrlen d args)).
 Proof.
-  unfold exec_hstrlen, key_of.
-  destruct args as [|c [|k [|f [|x rest]]]]; cbn [nth fst snd]; try (same; fail). read_only.
+  unfold exec_hstrlen, key_of, fields_of.
+  destruct args as [|c [|k [|f [|x rest]]]]; cbn [nth fst snd skipn]; try (same; fail). read_only.
 Qed.
 
-Lemma exec_hdel_hres d args : hres d (key_of args) (fst (exec_hdel d args)) (snd (exec_hdel d args)).
+Lemma exec_hdel_hres d args : hres d (key_of args) (fields_of args) (fst (exec_hdel d args)) (snd (exec_hdel d args)).
 Proof.
-  unfold exec_hdel, key_of.
-  destruct args as [|c [|k [|f rest]]]; cbn [nth fst snd]; try (same; fail).
+  unfold exec_hdel, key_of, fields_of.
+  destruct args as [|c [|k [|f rest]]]; cbn [nth fst snd skipn]; try (same; fail).
   destruct (get_hash d k) as [| |h] eqn:H; cbn [fst snd]; try (same; fail).
   destruct (hdel_all h (f :: rest) 0) as [h' n] eqn:S. cbn [fst snd].
-  apply (hres_put d k (RInt n) h h' H); try reflexivity.
-  intros ND. change h' with (fst (h', n)). rewrite <- S. apply hdel_all_nodup. exact ND.
+  apply (hres_put d k _ (RInt n) h h' H); try reflexivity.
+  - intros ND. change h' with (fst (h', n)). rewrite <- S. apply hdel_all_nodup. exact ND.
+  - intros f0 Hf. change h' with (fst (h', n)). rewrite <- S. rewrite hdel_all_lookup.
+    rewrite existsb_notin by exact Hf. reflexivity.
 Qed.
 
-Lemma exec_hincrby_hres d args : hres d (key_of args) (fst (exec_hincrby d args)) (snd (exec_hincrby d args)).
+Lemma exec_hincrby_hres d args : hres d (key_of args) (fields_of args) (fst (exec_hincrby d args)) (snd (exec_hincrby d args)).
 Proof.
-  unfold exec_hincrby, key_of.
-  destruct args as [|c [|k [|f [|n [|x rest]]]]]; cbn [nth fst snd]; try (same; fail).
+  unfold exec_hincrby, key_of, fields_of.
+  destruct args as [|c [|k [|f [|n [|x rest]]]]]; cbn [nth fst snd skipn]; try (same; fail).
   destruct (atoi64 n) as [delta|]; [|same].
   destruct (hash_or_empty d k) as [h|] eqn:H; [|same].
   destruct (alookup f h) as [b|].
   - destruct (atoi64 b) as [x|]; [|same].
     destruct (in_int64 (x + delta)); [|same]. cbn [fst snd].
-    apply (hres_set d k _ h _ H); try reflexivity; [apply aset_nonempty|apply NoDup_aset].
-  - cbn [fst snd]. apply (hres_set d k _ h _ H); try reflexivity; [apply aset_nonempty|apply NoDup_aset].
+    apply (hres_set d k _ _ h _ H); try reflexivity; [apply aset_nonempty|apply NoDup_aset|apply aset_other_field; left; reflexivity].
+  - cbn [fst snd]. apply (hres_set d k _ _ h _ H); try reflexivity; [apply aset_nonempty|apply NoDup_aset|apply aset_other_field; left; reflexivity].
 Qed.
 
-Lemma hfloat_follow_hres d k f h hint : hash_or_empty d k = Some h ->
-  hres d k (fst (hfloat_follow d k f h hint)) (snd (hfloat_follow d k f h hint)).
+Lemma hfloat_follow_hres d k f fs0 h hint : hash_or_empty d k = Some h ->
+  hres d k (f :: fs0) (fst (hfloat_follow d k f h hint)) (snd (hfloat_follow d k f h hint)).
 Proof.
   intros H. unfold hfloat_follow. destruct hint; try (same; fail).
   destruct (parse_dec b); [|same]. cbn [fst snd].
-  apply (hres_set d k _ h _ H); try reflexivity; [apply aset_nonempty|apply NoDup_aset].
+  apply (hres_set d k _ _ h _ H); try reflexivity; [apply aset_nonempty|apply NoDup_aset|apply aset_other_field; left; reflexivity].
 Qed.
 
-Lemma hfloat_store_hres d k f h m e hint : hash_or_empty d k = Some h ->
-  hres d k (fst (hfloat_store d k f h m e hint)) (snd (hfloat_store d k f h m e hint)).
+Lemma hfloat_store_hres d k f fs0 h m e hint : hash_or_empty d k = Some h ->
+  hres d k (f :: fs0) (fst (hfloat_store d k f h m e hint)) (snd (hfloat_store d k f h m e hint)).
 Proof.
   intros H. unfold hfloat_store. destruct (dec_norm m e) as [m' e'].
   destruct (dec_in_dom m' e'); [|apply hfloat_follow_hres; exact H]. cbn [fst snd].
-  apply (hres_set d k _ h _ H); try reflexivity; [apply aset_nonempty|apply NoDup_aset].
+  apply (hres_set d k _ _ h _ H); try reflexivity; [apply aset_nonempty|apply NoDup_aset|apply aset_other_field; left; reflexivity].
 Qed.
 
 Lemma exec_hincrbyfloat_hres d args hint :
-  hres d (key_of args) (fst (exec_hincrbyfloat d args hint)) (snd (exec_hincrbyfloat d args hint)).
+  hres d (key_of args) (fields_of args) (fst (exec_hincrbyfloat d args hint)) (snd (exec_hincrbyfloat d args hint)).
 Proof.
-  unfold exec_hincrbyfloat, key_of.
-  destruct args as [|c [|k [|f [|a [|x rest]]]]]; cbn [nth fst snd]; try (same; fail).
+  unfold exec_hincrbyfloat, key_of, fields_of.
+  destruct args as [|c [|k [|f [|a [|x rest]]]]]; cbn [nth fst snd skipn]; try (same; fail).
   destruct (fclassify a) as [m e| |]; [| same |].
   - destruct (hash_or_empty d k) as [h|] eqn:H; [|same].
     destruct (alookup f h) as [b|]; [|apply hfloat_store_hres; exact H].
@@ -475,11 +508,11 @@ Proof.
 Qed.
 
 Lemma exec_hrandfield_hres d args hint :
-  hres d (key_of args) (fst (exec_hrandfield d args hint)) (snd (exec_hrandfield d args hint)).
+  hres d (key_of args) (fields_of args) (fst (exec_hrandfield d args hint)) (snd (exec_hrandfield d args hint)).
 Proof. rewrite exec_hrandfield_same. apply hres_same. apply exec_hrandfield_wf. Qed.
 
 Theorem hashes_dispatch_hres d now nowms n args hint r d' :
-  hashes_dispatch d now nowms n args hint = Some (r, d') -> hres d (key_of args) r d'.
+  hashes_dispatch d now nowms n args hint = Some (r, d') -> hres d (key_of args) (fields_of args) r d'.
 Proof.
   unfold hashes_dispatch. intros H.
   repeat match type of H with
@@ -532,3 +565,299 @@ Theorem hashes_dispatch_keeps_deadline d now nowms n args hint r d' :
   hashes_dispatch d now nowms n args hint = Some (r, d') -> db_get d' (key_of args) <> None ->
   db_ttl d' (key_of args) = db_ttl d (key_of args).
 Proof. intros H N. eapply hres_ttl; [eapply hashes_dispatch_hres; exact H|exact N]. Qed.
+
+(* ------------------------------------------------------------------ reads leave the database alone *)
+Definition hash_write_name (n : bytes) : bool :=
+  is n (B "hset") || is n (B "hsetnx") || is n (B "hdel") || is n (B "hincrby") || is n (B "hincrbyfloat").
+
+Ltac snd_same :=
+  repeat match goal with
+  | |- context [match ?x with _ => _ end] => destruct x
+  end; reflexivity.
+
+Lemma exec_hget_same d args : snd (exec_hget d args) = d.      Proof. unfold exec_hget. snd_same. Qed.
+Lemma exec_hmget_same d args : snd (exec_hmget d args) = d.    Proof. unfold exec_hmget. snd_same. Qed.
+Lemma exec_hgetall_same d args : snd (exec_hgetall d args) = d. Proof. unfold exec_hgetall. snd_same. Qed.
+Lemma exec_hkeys_same d args : snd (exec_hkeys d args) = d.    Proof. unfold exec_hkeys. snd_same. Qed.
+Lemma exec_hvals_same d args : snd (exec_hvals d args) = d.    Proof. unfold exec_hvals. snd_same. Qed.
+Lemma exec_hlen_same d args : snd (exec_hlen d args) = d.      Proof. unfold exec_hlen. snd_same. Qed.
+Lemma exec_hexists_same d args : snd (exec_hexists d args) = d. Proof. unfold exec_hexists. snd_same. Qed.
+Lemma exec_hstrlen_same d args : snd (exec_hstrlen d args) = d. Proof. unfold exec_hstrlen. snd_same. Qed.
+
+Lemma some_pair_snd {A C} (x : A * C) r d' : Some x = Some (r, d') -> d' = snd x.
+Proof. intros H. inversion H; subst. reflexivity. Qed.
+
+Theorem hashes_dispatch_read_same d now nowms n args hint r d' :
+  hash_write_name n = false -> hashes_dispatch d now nowms n args hint = Some (r, d') -> d' = d.
+Proof.
+  unfold hashes_dispatch, hash_write_name. intros W H.
+  destruct (is n (B "hset")); [cbn in W; discriminate W|].
+  destruct (is n (B "hsetnx")); [cbn in W; discriminate W|].
+  destruct (is n (B "hget")); [apply some_pair_snd in H; rewrite H; apply exec_hget_same|].
+  destruct (is n (B "hmget")); [apply some_pair_snd in H; rewrite H; apply exec_hmget_same|].
+  destruct (is n (B "hgetall")); [apply some_pair_snd in H; rewrite H; apply exec_hgetall_same|].
+  destruct (is n (B "hkeys")); [apply some_pair_snd in H; rewrite H; apply exec_hkeys_same|].
+  destruct (is n (B "hvals")); [apply some_pair_snd in H; rewrite H; apply exec_hvals_same|].
+  destruct (is n (B "hlen")); [apply some_pair_snd in H; rewrite H; apply exec_hlen_same|].
+  destruct (is n (B "hexists")); [apply some_pair_snd in H; rewrite H; apply exec_hexists_same|].
+  destruct (is n (B "hstrlen")); [apply some_pair_snd in H; rewrite H; apply exec_hstrlen_same|].
+  destruct (is n (B "hdel")); [cbn in W; discriminate W|].
+  destruct (is n (B "hincrby")); [cbn in W; discriminate W|].
+  destruct (is n (B "hincrbyfloat")); [cbn in W; discriminate W|].
+  destruct (is n (B "hrandfield")); [apply some_pair_snd in H; rewrite H; apply exec_hrandfield_same|].
+  discriminate.
+Qed.
+
+(* ------------------------------------------------------------------ programs of hash commands *)
+(* one command: clock in s and ms, argument vector, observed reply (consulted by HRANDFIELD and by
+   HINCRBYFLOAT outside its exact domain only) *)
+Record hcmd := mkH { c_now : Z; c_nowms : Z; c_args : list bytes; c_hint : reply }.
+
+(* as Exec.exec restricted to this family: expired keys are purged first, names are matched in
+   lower case, anything that is not a hash command is answered with an error *)
+Definition hstep (d : db) (c : hcmd) : reply * db :=
+  let d0 := purge d (c_now c) in
+  match c_args c with
+  | [] => (err_other, d0)
+  | name :: _ =>
+    match hashes_dispatch d0 (c_now c) (c_nowms c) (lower name) (c_args c) (c_hint c) with
+    | Some res => res
+    | None => (err_other, d0)
+    end
+  end.
+
+Definition hrun (d : db) (p : list hcmd) : db := fold_left (fun d c => snd (hstep d c)) p d.
+
+Lemma hstep_cases d c :
+  hstep d c = (err_other, purge d (c_now c)) \/
+  exists name rest r d', c_args c = name :: rest /\
+    hashes_dispatch (purge d (c_now c)) (c_now c) (c_nowms c) (lower name) (c_args c) (c_hint c) = Some (r, d') /\
+    hstep d c = (r, d').
+Proof.
+  unfold hstep. destruct (c_args c) as [|name rest] eqn:A; [left; reflexivity|].
+  destruct (hashes_dispatch (purge d (c_now c)) (c_now c) (c_nowms c) (lower name) (name :: rest) (c_hint c))
+    as [[r d']|] eqn:E; [|left; reflexivity].
+  right. exists name, rest, r, d'. repeat split; assumption.
+Qed.
+
+Lemma hstep_wf d c : db_wf d -> db_wf (snd (hstep d c)).
+Proof.
+  intros W. destruct (hstep_cases d c) as [E|(name & rest & r & d' & A & H & E)]; rewrite E; cbn [snd].
+  - apply db_wf_purge. exact W.
+  - eapply hashes_dispatch_wf_pres; [|exact H]. apply db_wf_purge. exact W.
+Qed.
+
+Lemma hstep_ok d c : hashes_ok d -> hashes_ok (snd (hstep d c)).
+Proof.
+  intros W. destruct (hstep_cases d c) as [E|(name & rest & r & d' & A & H & E)]; rewrite E; cbn [snd].
+  - apply hashes_ok_purge. exact W.
+  - eapply hashes_dispatch_ok_pres; [|exact H]. apply hashes_ok_purge. exact W.
+Qed.
+
+Lemma hstep_reply_wf d c : reply_wf (fst (hstep d c)) = true.
+Proof.
+  destruct (hstep_cases d c) as [E|(name & rest & r & d' & A & H & E)]; rewrite E; cbn [fst].
+  - reflexivity.
+  - eapply hashes_dispatch_reply_wf. exact H.
+Qed.
+
+Theorem hrun_invariants p : forall d, db_wf d -> hashes_ok d -> db_wf (hrun d p) /\ hashes_ok (hrun d p).
+Proof.
+  induction p as [|c p IH]; intros d W OK; cbn; [split; assumption|].
+  apply IH; [apply hstep_wf|apply hstep_ok]; assumption.
+Qed.
+
+(* ------------------------------------------------------------------ deadlines *)
+Definition before_deadline (d : db) (k : bytes) (t : Z) : Prop :=
+  match db_ttl d k with Some dl => t < dl | None => True end.
+
+Lemma purge_alive d k t : db_wf d -> before_deadline d k t ->
+  db_get (purge d t) k = db_get d k /\ db_ttl (purge d t) k = db_ttl d k.
+Proof.
+  intros W BD. rewrite db_get_purge, db_ttl_purge by exact W.
+  unfold before_deadline in BD. unfold expired. destruct (db_ttl d k) as [dl|]; [|split; reflexivity].
+  destruct (dl <=? t) eqn:E; [lia|split; reflexivity].
+Qed.
+
+(* an expired hash is a missing key for every hash command *)
+Lemma expired_is_missing d now k : expired d now k = true -> get_hash (purge d now) k = HMissing.
+Proof. intros E. unfold get_hash. rewrite db_get_purge, E. reflexivity. Qed.
+
+(* ------------------------------------------------------------------ the abstract map and the frame *)
+Lemma hash_at_of d k h : hash_or_empty d k = Some h -> hash_at d k = h.
+Proof.
+  unfold hash_or_empty, get_hash, hash_at. destruct (db_get d k) as [v|]; [destruct v|];
+    intros H; inversion H; reflexivity.
+Qed.
+Lemma hash_at_found d k h : get_hash d k = HFound h -> hash_at d k = h.
+Proof.
+  unfold get_hash, hash_at. destruct (db_get d k) as [v|]; [destruct v|]; intros H; inversion H; reflexivity.
+Qed.
+Lemma hash_at_set d k h : hash_at (db_set d k (VHash h)) k = h.
+Proof. unfold hash_at. rewrite db_get_set_same. reflexivity. Qed.
+Lemma hash_at_put d k h : hash_at (put_hash d k h) k = h.
+Proof.
+  unfold hash_at, put_hash. destruct h; [rewrite db_get_del_same|rewrite db_get_set_same]; reflexivity.
+Qed.
+
+Lemma raw_view_get d d' k : raw_view d' k = raw_view d k -> db_get d' k = db_get d k.
+Proof.
+  unfold raw_view. destruct (db_get d' k), (db_get d k); intros H; inversion H; reflexivity.
+Qed.
+Lemma raw_view_ttl d d' k : raw_view d' k = raw_view d k -> db_get d k <> None -> db_ttl d' k = db_ttl d k.
+Proof.
+  unfold raw_view. destruct (db_get d' k), (db_get d k); intros H N; inversion H; congruence.
+Qed.
+
+Lemma hfield_some_get d k f v : hfield d k f = Some v -> db_get d k <> None.
+Proof.
+  unfold hfield, hview, hash_at. destruct (db_get d k); [discriminate|]. cbn. discriminate.
+Qed.
+
+(* a field that is not named by the command, or that lives under another key, keeps its value *)
+Lemma hres_untouched d k fs r d' k0 f :
+  hres d k fs r d' -> (k0 <> k \/ ~ In f fs) -> hfield d' k0 f = hfield d k0 f.
+Proof.
+  intros H C. destruct (bytes_eq_dec k0 k) as [->|N].
+  - destruct C as [C|C]; [contradiction|].
+    destruct H as [|r h h' Hh Hne Hr Hn Hd Hf|r h h' Hh Hne Hr Hd Hf]; [reflexivity| |]; unfold hfield, hview.
+    + rewrite hash_at_set, (hash_at_of _ _ _ Hh). apply Hf. exact C.
+    + rewrite hash_at_put, (hash_at_found _ _ _ Hh). apply Hf. exact C.
+  - unfold hfield, hash_at. rewrite (raw_view_get d d' k0); [reflexivity|]. eapply hres_frame; eassumption.
+Qed.
+
+Theorem hashes_dispatch_untouched d now nowms n args hint r d' k0 f :
+  hashes_dispatch d now nowms n args hint = Some (r, d') ->
+  (k0 <> key_of args \/ ~ In f (fields_of args)) -> hfield d' k0 f = hfield d k0 f.
+Proof. intros H C. eapply hres_untouched; [eapply hashes_dispatch_hres; exact H|exact C]. Qed.
+
+(* ------------------------------------------------------------------ a field survives every program that does not write it *)
+Definition touches (c : hcmd) (k f : bytes) : bool :=
+  match c_args c with
+  | name :: _ => hash_write_name (lower name) && bytes_eqb (key_of (c_args c)) k
+                 && existsb (bytes_eqb f) (fields_of (c_args c))
+  | [] => false
+  end.
+
+Lemma hfield_purge_alive d k f t : db_wf d -> before_deadline d k t -> hfield (purge d t) k f = hfield d k f.
+Proof.
+  intros W BD. unfold hfield, hash_at. destruct (purge_alive d k t W BD) as [G _]. rewrite G. reflexivity.
+Qed.
+
+Lemma hstep_untouched d c k f v :
+  db_wf d -> touches c k f = false -> before_deadline d k (c_now c) -> hfield d k f = Some v ->
+  hfield (snd (hstep d c)) k f = Some v /\ db_ttl (snd (hstep d c)) k = db_ttl d k.
+Proof.
+  intros W T BD F.
+  pose proof (hfield_purge_alive d k f (c_now c) W BD) as F0. rewrite F in F0.
+  destruct (purge_alive d k (c_now c) W BD) as [G0 T0].
+  destruct (hstep_cases d c) as [E|(name & rest & r & d' & A & H & E)]; rewrite E; cbn [snd].
+  - split; assumption.
+  - unfold touches in T. rewrite A in T. rewrite <- A in T.
+    destruct (hash_write_name (lower name)) eqn:Wn.
+    + assert (C : k <> key_of (c_args c) \/ ~ In f (fields_of (c_args c))).
+      { cbn [andb] in T. destruct (bytes_eqb_spec (key_of (c_args c)) k) as [Ek|Nk].
+        - right. cbn [andb] in T. intros Hin.
+          assert (existsb (bytes_eqb f) (fields_of (c_args c)) = true) as X.
+          { apply existsb_exists. exists f. split; [exact Hin|apply bytes_eqb_refl]. }
+          congruence.
+        - left. congruence. }
+      pose proof (hashes_dispatch_untouched _ _ _ _ _ _ _ _ k f H C) as U. rewrite F0 in U.
+      split; [exact U|]. rewrite <- T0.
+      destruct (bytes_eq_dec k (key_of (c_args c))) as [Ek|Nk].
+      * rewrite Ek. eapply hashes_dispatch_keeps_deadline; [exact H|]. rewrite <- Ek.
+        eapply hfield_some_get. exact U.
+      * apply raw_view_ttl.
+        -- eapply hashes_dispatch_frame; [exact H|exact Nk].
+        -- eapply hfield_some_get. exact F0.
+    + assert (d' = purge d (c_now c)) as -> by (eapply hashes_dispatch_read_same; eassumption).
+      split; assumption.
+Qed.
+
+Lemma hrun_untouched q : forall d k f v T,
+  db_wf d -> hfield d k f = Some v -> db_ttl d k = T ->
+  (forall c, In c q -> touches c k f = false /\ match T with Some dl => c_now c < dl | None => True end) ->
+  db_wf (hrun d q) /\ hfield (hrun d q) k f = Some v /\ db_ttl (hrun d q) k = T.
+Proof.
+  induction q as [|c q IH]; intros d k f v T W F ET HQ; cbn [hrun fold_left]; [split; [|split]; assumption|].
+  destruct (HQ c (or_introl eq_refl)) as [Tc Bc].
+  assert (BD : before_deadline d k (c_now c)) by (unfold before_deadline; rewrite ET; exact Bc).
+  destruct (hstep_untouched d c k f v W Tc BD F) as [F' T'].
+  apply IH; [apply hstep_wf; exact W|exact F'|congruence|].
+  intros c0 Hin. apply HQ. right. exact Hin.
+Qed.
+
+(* ------------------------------------------------------------------ per-command clauses *)
+Lemma dispatch_hset d now nowms args hint : hashes_dispatch d now nowms (B "hset") args hint = Some (exec_hset d args).
+Proof. reflexivity. Qed.
+Lemma dispatch_hget d now nowms args hint : hashes_dispatch d now nowms (B "hget") args hint = Some (exec_hget d args).
+Proof. reflexivity. Qed.
+
+(* HSET with any number of pairs *)
+Theorem exec_hset_spec d c k fvs ps h :
+  pairs_of fvs = Some ps -> ps <> [] -> hash_or_empty d k = Some h ->
+  exists h',
+    exec_hset d (c :: k :: fvs) = (RInt (zlength h' - zlength h), db_set d k (VHash h')) /\
+    (forall f, hview h' f = match alookup f (rev ps) with Some v => Some v | None => hview h f end) /\
+    (NoDup (akeys h) -> NoDup (akeys h')) /\ h' <> [].
+Proof.
+  intros P Hps H. exists (fst (hset_all h ps 0)).
+  assert (Sh : exists a b r, fvs = a :: b :: r).
+  { destruct fvs as [|a [|b r]]; cbn in P; [inversion P; subst; congruence|discriminate|eauto]. }
+  destruct Sh as (a & b & r & ->). unfold exec_hset. rewrite P, H.
+  destruct (hset_all h ps 0) as [h' n] eqn:S. cbn [fst].
+  pose proof (hset_all_count ps h 0) as Cn. rewrite S in Cn. cbn [fst snd] in Cn.
+  repeat split.
+  - f_equal. f_equal. lia.
+  - intros f. unfold hview. change h' with (fst (h', n)). rewrite <- S. apply hset_all_lookup.
+  - intros ND. change h' with (fst (h', n)). rewrite <- S. apply hset_all_nodup. exact ND.
+  - change h' with (fst (h', n)). rewrite <- S. apply hset_all_nonempty. exact Hps.
+Qed.
+
+Lemma exec_hset_one d c k f v h : hash_or_empty d k = Some h ->
+  exec_hset d [c; k; f; v] = (RInt (if amem f h then 0 else 1), db_set d k (VHash (aset f v h))).
+Proof. intros H. unfold exec_hset. cbn [pairs_of]. rewrite H. cbn [hset_all]. destruct (amem f h); reflexivity. Qed.
+
+Lemma exec_hset_noerr d c k f v : is_err (fst (exec_hset d [c; k; f; v])) = false ->
+  exists h, hash_or_empty d k = Some h.
+Proof.
+  unfold exec_hset. cbn [pairs_of]. destruct (hash_or_empty d k) as [h|]; [eauto|]. cbn. discriminate.
+Qed.
+
+Lemma exec_hget_spec d c k f h : hash_or_empty d k = Some h -> exec_hget d [c; k; f] = (bulk_opt (hview h f), d).
+Proof. intros H. unfold exec_hget. rewrite H. reflexivity. Qed.
+
+Lemma hash_or_empty_of_field d k f v : hfield d k f = Some v -> hash_or_empty d k = Some (hash_at d k).
+Proof.
+  unfold hfield, hview, hash_at, hash_or_empty, get_hash.
+  destruct (db_get d k) as [x|]; [destruct x|]; cbn; try discriminate. reflexivity.
+Qed.
+
+(* ------------------------------------------------------------------ last write wins, over arbitrary programs *)
+Theorem last_write_wins d p k f v t tms c0 hint0 q t' tms' c1 hint1 r d2 :
+  db_wf d ->
+  lower c0 = B "hset" -> lower c1 = B "hget" ->
+  hstep (hrun d p) (mkH t tms [c0; k; f; v] hint0) = (r, d2) ->
+  is_err r = false ->
+  (forall c, In c q -> touches c k f = false /\ before_deadline d2 k (c_now c)) ->
+  before_deadline d2 k t' ->
+  fst (hstep (hrun d2 q) (mkH t' tms' [c1; k; f] hint1)) = RBulk v.
+Proof.
+  intros W L0 L1 S NE HQ BD'.
+  assert (W1 : db_wf (hrun d p)).
+  { clear - W. revert d W. induction p as [|c p IH]; intros d W; cbn; [exact W|]. apply IH. apply hstep_wf. exact W. }
+  assert (W2 : db_wf d2) by (change d2 with (snd (r, d2)); rewrite <- S; apply hstep_wf; exact W1).
+  assert (F2 : hfield d2 k f = Some v).
+  { unfold hstep in S. cbn [c_args c_now c_nowms c_hint] in S. rewrite L0, dispatch_hset in S.
+    assert (NE' : is_err (fst (exec_hset (purge (hrun d p) t) [c0; k; f; v])) = false) by (rewrite S; exact NE).
+    destruct (exec_hset_noerr _ _ _ _ _ NE') as [h Hh].
+    rewrite (exec_hset_one _ _ _ _ _ _ Hh) in S. inversion S; subst.
+    unfold hfield, hview. rewrite hash_at_set. apply alookup_aset_same. }
+  destruct (hrun_untouched q d2 k f v (db_ttl d2 k) W2 F2 eq_refl) as (W3 & F3 & T3).
+  { intros c Hin. destruct (HQ c Hin) as [Tc Bc]. split; [exact Tc|]. exact Bc. }
+  assert (BD3 : before_deadline (hrun d2 q) k t') by (unfold before_deadline in *; rewrite T3; exact BD').
+  unfold hstep. cbn [c_args c_now c_nowms c_hint]. rewrite L1, dispatch_hget.
+  pose proof (hfield_purge_alive (hrun d2 q) k f t' W3 BD3) as F4. rewrite F3 in F4.
+  rewrite (exec_hget_spec _ _ _ _ _ (hash_or_empty_of_field _ _ _ _ F4)). cbn [fst].
+  unfold hfield in F4. rewrite F4. reflexivity.
+Qed.
